@@ -92,6 +92,8 @@ type Plan struct {
 	Script []ScriptedFault `json:"script,omitempty"`
 	// ScriptChain applies chain events when a position is first recorded.
 	ScriptChain []ScriptedChain `json:"script_chain,omitempty"`
+	// PreDDL is executed before migration (pre-existing tables).
+	PreDDL []string `json:"pre_ddl,omitempty"`
 	// Idle lists pair keys ("src/ig") that get no runner (never started).
 	Idle []string `json:"idle,omitempty"`
 	Note string   `json:"note,omitempty"`
